@@ -8,6 +8,7 @@ import (
 	"encoding/json"
 	"fmt"
 	"os"
+	"sort"
 	"strings"
 	"time"
 
@@ -73,6 +74,15 @@ func items(tier string) []item {
 			all(mk(2, 2, true, true, false), 24)
 			all(mk(3, 1, true, true, true), 24)
 		}
+		// colliding calls: every caller asks for the same unit / address / quantity (identical frames over RTU)
+		for _, sh := range [][2]int{{2, 1}, {3, 1}, {2, 2}} {
+			st := mk(sh[0], sh[1], false, false, false)
+			st.SameTarget, st.Name = true, st.Name+"+same-target"
+			all(st, map[[2]int]int{{2, 1}: 2, {3, 1}: 6, {2, 2}: 6}[sh])
+		}
+		stc := mk(2, 1, true, false, true)
+		stc.SameTarget, stc.Name = true, stc.Name+"+same-target"
+		all(stc, 6)
 		tf := mk(2, 1, false, false, false)
 		tf.LongTimeout = true
 		out = append(out, item{tf, 2, vsched.ModeDelay, true, 2})
@@ -102,7 +112,7 @@ func items(tier string) []item {
 	return out
 }
 
-type local struct{ execs, steps, newSteps, points int64 }
+type local struct{ execs, steps, newSteps, points, hbAcc int64 }
 
 func runItem(it item, shard, n int, res *ev.Result, lc *local, stop func() bool) {
 	orders := map[string]struct{}{}
@@ -119,6 +129,7 @@ func runItem(it item, shard, n int, res *ev.Result, lc *local, stop func() bool)
 		}
 		lc.execs++
 		lc.steps += int64(r.Out.Steps)
+		lc.hbAcc += int64(r.Out.HBAccesses)
 		shared := 0
 		if p := x.PrefixLen(); p > 0 && p <= len(r.Out.ChoiceSteps) {
 			shared = r.Out.ChoiceSteps[p-1]
@@ -130,6 +141,9 @@ func runItem(it item, shard, n int, res *ev.Result, lc *local, stop func() bool)
 			nviol++
 			c := Case{Scenario: it.sc, Budget: it.budget, Mode: it.mode, TimeFirst: it.timeFirst, Choices: x.Choices()}
 			attrs := map[string]any{"close": it.sc.Close, "connect": it.sc.Connect}
+			if v.Kind == "data-race" {
+				attrs = map[string]any{} // one class per pair of source positions, whatever the scenario
+			}
 			for k, val := range v.Attrs {
 				attrs[k] = val
 			}
@@ -160,7 +174,29 @@ func run(tier string, shard, n int, res *ev.Result) {
 	stop := func() bool { return time.Now().After(deadline) }
 	lc := &local{}
 	its := items(tier)
+	// smallest systems first, and no item may use more than its share of the time: a change that makes one configuration's
+	// schedule space explode (an extra unlocked step in every caller) must not keep the others from being explored
+	sort.SliceStable(its, func(i, j int) bool {
+		w := func(it item) int {
+			x := it.sc.Callers * it.sc.Calls * 4
+			for _, b := range []bool{it.sc.Close, it.sc.Connect, it.sc.Hooks} {
+				if b {
+					x++
+				}
+			}
+			return x
+		}
+		return w(its[i]) < w(its[j])
+	})
+	perItem := 40 * time.Second
+	if tier == "thorough" {
+		perItem = 8 * time.Minute
+	}
+	globalStop := stop
+	var itemStart time.Time
+	stop = func() bool { return globalStop() || time.Since(itemStart) > perItem }
 	for _, it := range its {
+		itemStart = time.Now()
 		if f := os.Getenv("VERIF_ITEM"); f != "" && !strings.Contains(it.sc.Name, f) {
 			continue
 		}
@@ -182,6 +218,7 @@ func run(tier string, shard, n int, res *ev.Result) {
 	res.Add("steps", lc.steps)
 	res.Add("tree_nodes", lc.newSteps)
 	res.Add("choice_points", lc.points)
+	res.Add("hb_field_accesses_checked", lc.hbAcc)
 	res.DistinctAdd("nontrivial", lc.execs)
 	if shard == 0 {
 		res.Axis("client kinds", "full", 4)
@@ -230,7 +267,7 @@ func main() {
 			"(no bound for the 2-goroutine configurations) are enumerated by a stateless DFS over the real, transformed client code against a device that answers in arrival " +
 			"order and hands every reply out in two chunks. Executions are distinct by construction (distinct choice sequences); all of them run to completion under the oracle.",
 		Assumptions: []string{
-			"sequential consistency (cooperative scheduler); unsynchronised accesses are preemption points because every statement touching a mutable field of Client/SerialClient is a scheduling point",
+			"executions are sequentially consistent (cooperative scheduler); every statement touching a mutable field of Client/SerialClient is a scheduling point, and the reads / writes of those fields are judged for happens-before races in every explored schedule (vector clocks over the program's own synchronisation; edges over-approximated, so a report is never invented); locals captured by goroutines and accesses the transformer cannot place are left to the auxiliary -race pass",
 			"replies are delivered in two chunks; payload is one FC3 request per call with caller-specific unit id, transaction id, address and quantity",
 		},
 		Run:        run,
